@@ -56,6 +56,35 @@ fn check_lattice(acc: &mut Acc, idx: usize, a: IP, b: IP, c: IP, d: IP) {
         }
     };
     let wit = |extra: &str| json!({"p": format!("{:?}->{:?}", a, b), "q": format!("{:?}->{:?}", c, d), "exact": kind, "got": describe(&got), "detail": extra});
+    // the same pair at the exact scales 2^-30 and 2^30, and in f32 on the lattice: scaling by a power of two commutes with every floating-point
+    // operation, so the result must be the scaled result bit for bit (no absolute threshold may exist); f32 must give the same classification
+    if idx % 2 == 0 {
+        for sc in [1.0 / 1073741824.0, 1073741824.0] {
+            let f = |p: IP| Coord { x: p.0 as f64 * sc, y: p.1 as f64 * sc };
+            acc.evals += 1;
+            let gs = guard(|| line_intersection(Line::new(f(a), f(b)), Line::new(f(c), f(d))));
+            let back = gs.map(|r| match r {
+                None => None,
+                Some(LineIntersection::SinglePoint { intersection, is_proper }) => Some(LineIntersection::SinglePoint { intersection: Coord { x: intersection.x / sc, y: intersection.y / sc }, is_proper }),
+                Some(LineIntersection::Collinear { intersection }) => Some(LineIntersection::Collinear { intersection: Line::new(Coord { x: intersection.start.x / sc, y: intersection.start.y / sc }, Coord { x: intersection.end.x / sc, y: intersection.end.y / sc }) }),
+            });
+            if back != Ok(got) {
+                acc.viol(format!("line_intersection does not scale with its operands (scale 2^{}, {})", if sc < 1.0 { -30 } else { 30 }, kind), idx, || wit(&format!("scaled result, scaled back: {:?}", back.as_ref().map(describe))));
+            }
+        }
+        let f32c = |p: IP| Coord { x: p.0 as f32, y: p.1 as f32 };
+        acc.evals += 1;
+        let g32 = guard(|| line_intersection(Line::new(f32c(a), f32c(b)), Line::new(f32c(c), f32c(d))));
+        let same_class = match (&g32, &got) {
+            (Ok(None), None) => true,
+            (Ok(Some(LineIntersection::SinglePoint { intersection: i32_, is_proper: p32 })), Some(LineIntersection::SinglePoint { intersection, is_proper })) => p32 == is_proper && (i32_.x as f64 - intersection.x).abs() <= 1e-5 && (i32_.y as f64 - intersection.y).abs() <= 1e-5,
+            (Ok(Some(LineIntersection::Collinear { intersection: l32 })), Some(LineIntersection::Collinear { intersection })) => l32.start.x as f64 == intersection.start.x && l32.end.y as f64 == intersection.end.y && l32.start.y as f64 == intersection.start.y && l32.end.x as f64 == intersection.end.x,
+            _ => false,
+        };
+        if !same_class {
+            acc.viol(format!("line_intersection<f32> differs from <f64> on lattice operands ({})", kind), idx, || wit(&format!("f32: {:?}", g32)));
+        }
+    }
     match (&exact, &got) {
         (Common::Nothing, None) => {}
         (Common::Overlap, Some(LineIntersection::Collinear { intersection })) => {
